@@ -327,7 +327,8 @@ fn main() {
                         known_hits.add("required-nullable-dropped-on-encode")
                     else:
                         viol.append((s, inst, f"re-serialised document is not valid: {json.dumps(inst)} -> {json.dumps(back)}"))
-    res.counts.update({"evaluations": len(probes), "distinct_nontrivial": n_ok, "schemas": len(schemas),
+    n_b = part_b(tier, seed, viol, known_hits)
+    res.counts.update({"evaluations": len(probes) + n_b, "distinct_nontrivial": n_ok, "schemas": len(schemas), "part_b_probes": n_b,
                        "traces_validated_against_impl": len(probes),
                        "rule": "object schemas of the tier-A fragment (string/integer/boolean, arrays, nested objects; required / optional / nullable members; additionalProperties false) generated at random; per schema N instances from a schema-directed generator (members shuffled, undeclared members, nulls) and N near-miss mutants (missing required, wrong JSON type, unknown member); types emitted by the CLI, compiled in the arena, serde_json from_str/to_string vs the extracted model's dec/enc; validity verdicts cross-checked with python jsonschema Draft 2020-12; non-trivial = instances the independent validator accepts"})
     for s in schemas[:3]:
@@ -451,3 +452,257 @@ def _req_nullable_null(s, j):
         if nm in j and j[nm] is not None and _req_nullable_null(sc, j[nm]):
             return True
     return False
+
+
+# ======================================================================================================
+# Part B — wider search without the model: allOf chains, $ref, maps, string enums, keyword-like member names.
+# Validity is decided by python jsonschema on the OpenAPI document itself (local $ref resolution).
+# ======================================================================================================
+
+B_NAMES = ["id", "name", "description", "title", "example", "labels", "kind", "created", "owner", "url", "count", "type"]
+
+
+def b_prim(rnd):
+    return rnd.choice([{"type": "string"}, {"type": "integer"}, {"type": "boolean"}, {"type": "string", "enum": ["a", "b", "c"]},
+                       {"type": "array", "items": {"type": "string"}}, {"type": "object", "additionalProperties": {"type": "integer"}}])
+
+
+def b_object(rnd, names, closed_p=0.2, depth=0):
+    props, req = {}, []
+    for nm in rnd.sample(B_NAMES, rnd.randint(1, 4)):
+        r = rnd.random()
+        if r < 0.2 and depth < 2:
+            props[nm] = b_object(rnd, names, closed_p, depth + 1)
+        elif r < 0.35 and names:
+            props[nm] = {"$ref": "#/components/schemas/" + rnd.choice(names)}
+        else:
+            props[nm] = b_prim(rnd)
+        if rnd.random() < 0.45:
+            req.append(nm)
+    o = {"type": "object", "properties": props}
+    if req:
+        o["required"] = req
+    if rnd.random() < closed_p:
+        o["additionalProperties"] = False
+    return o
+
+
+def b_components(rnd):
+    """a few plain objects, then allOf children with 1-3 parents (chains up to depth 3), names chosen so that
+    alphabetical order and inheritance depth disagree"""
+    pool = ["Entity", "Resource", "Timestamps", "Account", "Volume", "Base", "Zed", "Alpha", "Mid"]
+    names = rnd.sample(pool, rnd.randint(3, 6))
+    comps, plain = {}, []
+    for i, nm in enumerate(names):
+        if i < 2 or rnd.random() < 0.4:
+            comps[nm] = b_object(rnd, [], closed_p=0.0)
+            plain.append(nm)
+        else:
+            parents = rnd.sample(list(comps), min(len(comps), rnd.randint(1, 3)))
+            own = b_object(rnd, [], closed_p=0.0)
+            comps[nm] = {"allOf": [{"$ref": f"#/components/schemas/{p}"} for p in parents] + [own]}
+    # a root that refers to everything, plus sibling inline objects differing in annotation-like members
+    root_props = {nm.lower(): {"$ref": f"#/components/schemas/{nm}"} for nm in names}
+    a = b_object(rnd, [], closed_p=0.5)
+    b = json.loads(json.dumps(a))
+    extra = rnd.choice(["description", "title", "example", "name"])
+    if extra in b["properties"]:
+        del b["properties"][extra]
+        b["required"] = [r for r in b.get("required", []) if r != extra]
+    else:
+        b["properties"][extra] = {"type": "string"}
+    root_props["first"] = a
+    root_props["second"] = b
+    comps["Root"] = {"type": "object", "properties": root_props}
+    return comps
+
+
+def b_resolve(s, comps, seen=()):
+    """flattened view: (properties, required, additional) of an object-like schema"""
+    if "$ref" in s:
+        nm = s["$ref"].split("/")[-1]
+        if nm in seen:
+            return {}, set(), None
+        return b_resolve(comps[nm], comps, seen + (nm,))
+    props, req, addl = {}, set(), None
+    for part in s.get("allOf", []):
+        p, r, a = b_resolve(part, comps, seen)
+        props.update(p)
+        req |= r
+        addl = a if a is not None else addl
+    props.update(s.get("properties", {}))
+    req |= set(s.get("required", []))
+    if "additionalProperties" in s:
+        addl = s["additionalProperties"]
+    return props, req, addl
+
+
+def b_instance(rnd, s, comps, depth=0):
+    if "$ref" in s or "allOf" in s or s.get("type") == "object":
+        if s.get("type") == "object" and "properties" not in s and "allOf" not in s:
+            ap = s.get("additionalProperties")
+            return {k: b_instance(rnd, ap, comps, depth + 1) for k in rnd.sample(["k1", "k2", "k3"], rnd.randint(0, 2))} if isinstance(ap, dict) else {}
+        props, req, addl = b_resolve(s, comps)
+        o = {}
+        for nm, ps in props.items():
+            if nm in req or (rnd.random() < 0.6 and depth < 4):
+                o[nm] = b_instance(rnd, ps, comps, depth + 1)
+        return o
+    t = s.get("type")
+    if "enum" in s:
+        return rnd.choice(s["enum"])
+    if t == "string":
+        return rnd.choice(["x", "", "hello"])
+    if t == "integer":
+        return rnd.choice([0, 7, -3])
+    if t == "boolean":
+        return rnd.choice([True, False])
+    if t == "array":
+        return [b_instance(rnd, s["items"], comps, depth + 1) for _ in range(rnd.randint(0, 2))]
+    return None
+
+
+def b_mutants(rnd, s, comps, inst):
+    """shape violations located in declared members of the (flattened) object"""
+    out = []
+    props, req, addl = b_resolve(s, comps)
+    for nm in req:
+        if nm in inst:
+            c = dict(inst)
+            del c[nm]
+            out.append((c, f"missing required member {nm}"))
+    for nm, ps in props.items():
+        if nm in inst:
+            pt = ps.get("type") if "$ref" not in ps and "allOf" not in ps else "object"
+            wrong = {"string": 5, "integer": "five", "boolean": "yes", "array": {"a": 1}, "object": [1]}.get(pt)
+            if wrong is not None:
+                c = dict(inst)
+                c[nm] = wrong
+                out.append((c, f"member {nm} has the wrong JSON type"))
+            if "enum" in ps:
+                c = dict(inst)
+                c[nm] = "not-declared"
+                out.append((c, f"member {nm} has an undeclared enum value"))
+    if addl is False:
+        c = dict(inst)
+        c["zz_unknown"] = 1
+        out.append((c, "unknown member under additionalProperties:false"))
+    rnd.shuffle(out)
+    return out[:4]
+
+
+def b_norm(x):
+    if isinstance(x, dict):
+        return {k: b_norm(v) for k, v in x.items() if v is not None}
+    if isinstance(x, list):
+        return [b_norm(v) for v in x]
+    return x
+
+
+def b_project(s, comps, x):
+    """keep declared members only (undeclared ones are legitimately dropped by the generated structs)"""
+    if isinstance(x, dict) and ("$ref" in s or "allOf" in s or "properties" in s):
+        props, req, addl = b_resolve(s, comps)
+        return {k: b_project(props[k], comps, v) for k, v in x.items() if k in props and v is not None}
+    if isinstance(x, dict):
+        ap = s.get("additionalProperties")
+        return {k: (b_project(ap, comps, v) if isinstance(ap, dict) else v) for k, v in x.items()}
+    if isinstance(x, list) and "items" in s:
+        return [b_project(s["items"], comps, v) for v in x]
+    return x
+
+
+def part_b(tier, seed, viol, known_hits):
+    rnd = random.Random(seed + 17)
+    n = 25 if tier == "quick" else 200
+    d = vlib.scratch("C02b")
+    specs = [b_components(rnd) for _ in range(n)]
+    # deterministic witness of the recorded finding struct-accepts-array
+    specs[0] = {"Zed": {"type": "object", "properties": {"n": {"type": "integer"}, "s": {"type": "string"}}},
+                "Root": {"type": "object", "required": ["zed"], "properties": {"zed": {"$ref": "#/components/schemas/Zed"}}}}
+
+    def one(i):
+        spec = {"openapi": "3.1.0", "info": {"title": "t", "version": "1"}, "paths": {}, "components": {"schemas": specs[i]}}
+        sp = os.path.join(d, f"s{i}.json")
+        json.dump(spec, open(sp, "w"))
+        outp = os.path.join(d, f"o{i}.rs")
+        rc, txt = vlib.oas(["generate", "types", "-i", sp, "-o", outp, "-q", "--all-schemas"])
+        return rc, txt, outp
+    outs = vlib.pmap(one, range(n))
+    dumps = vlib.vtool_lines("dump", [o[2] for o in outs])
+    ar = arena.Arena("C02b")
+    targets = {}
+    for i, ((rc, txt, outp), dump) in enumerate(zip(outs, dumps)):
+        if rc != 0 or "error" in dump:
+            viol.append((specs[i], None, f"generator failed on an allOf/ref spec rc={rc} {txt[-200:]}"))
+            continue
+        structs = {x["name"] for x in dump["items"] if x["kind"] == "struct"}
+        names = [nm for nm in specs[i] if nm in structs]
+        if names:
+            ar.add_case(i, outp)
+            targets[i] = names
+
+    def body(cs):
+        arms = "\n".join(f'            ({i}, "{nm}") => rt::<case_{i}::{nm}>(j),' for i in cs for nm in targets[i])
+        return """
+use std::io::BufRead;
+fn rt<T: serde::de::DeserializeOwned + serde::Serialize>(j: &str) -> String {
+    match serde_json::from_str::<T>(j) { Ok(v) => format!("OK {}", serde_json::to_string(&v).unwrap()), Err(_) => "ERR".to_string() }
+}
+fn main() {
+    for line in std::io::stdin().lock().lines() {
+        let line = line.unwrap();
+        let mut it = line.splitn(3, ' ');
+        let c: usize = it.next().unwrap().parse().unwrap();
+        let t = it.next().unwrap();
+        let j = it.next().unwrap_or("");
+        let r = match (c, t) {
+""" + arms + """
+            _ => "NOCASE".to_string(),
+        };
+        println!("{}", r);
+    }
+}
+"""
+    ok, failed, err = ar.build_bisect(body, sub="build")
+    for ci, dg in failed.items():
+        viol.append((specs[ci], None, f"emitted types do not compile (allOf/ref spec): {dg[0]['code']} {dg[0]['message'][:160]}"))
+    probes = []
+    for i in ar.cases:
+        comps = specs[i]
+        for nm in targets[i]:
+            s = {"$ref": f"#/components/schemas/{nm}"}
+            for _ in range(4 if tier == "quick" else 10):
+                inst = b_instance(rnd, s, comps)
+                probes.append((i, nm, inst, "valid", ""))
+                for m, why in b_mutants(rnd, s, comps, inst):
+                    probes.append((i, nm, m, "mutant", why))
+    if not (ok and probes):
+        return 0
+    rc, outp, errp = ar.run("\n".join(f"{i} {nm} {json.dumps(inst)}" for i, nm, inst, _, _ in probes) + "\n")
+    impl = outp.split("\n")
+    docs = [[{"$ref": f"#/components/schemas/{nm}", "components": {"schemas": specs[i]}}, inst] for i, nm, inst, _, _ in probes]
+    pj = subprocess.run(["python3-vt", "-c", "import sys,json\nfrom jsonschema import Draft202012Validator as V\nd=json.load(sys.stdin)\nprint(json.dumps([V(s).is_valid(i) for s,i in d]))"],
+                        input=json.dumps(docs), stdout=subprocess.PIPE, stderr=subprocess.PIPE, text=True, timeout=900)
+    if pj.returncode != 0:
+        viol.append((None, None, "jsonschema oracle failed: " + pj.stderr[-300:]))
+        return 0
+    jsv = json.loads(pj.stdout)
+    for k, (i, nm, inst, kind, why) in enumerate(probes):
+        got = impl[k] if k < len(impl) else "MISSING"
+        s = {"$ref": f"#/components/schemas/{nm}"}
+        if jsv[k]:
+            if not got.startswith("OK "):
+                viol.append((specs[i], inst, f"{nm}: valid document rejected: {json.dumps(inst)[:300]}"))
+            else:
+                back = json.loads(got[3:])
+                a, b = b_norm(b_project(s, specs[i], inst)), b_norm(b_project(s, specs[i], back))
+                if a != b:
+                    lost = [kk for kk in a if kk not in b] if isinstance(a, dict) and isinstance(b, dict) else []
+                    viol.append((specs[i], inst, f"{nm}: round trip changed declared members (lost {lost}): {json.dumps(inst)[:200]} -> {json.dumps(back)[:200]}"))
+        elif kind == "mutant" and got.startswith("OK "):
+            if why.endswith("wrong JSON type") and any(isinstance(v, list) and v == [1] for v in inst.values()):
+                known_hits.add("struct-accepts-array")
+            else:
+                viol.append((specs[i], inst, f"{nm}: shape violation accepted ({why}): {json.dumps(inst)[:300]}"))
+    return len(probes)
